@@ -122,6 +122,7 @@ type Obj struct {
 	T     types.Type // content type (struct / array elem container / scalar)
 	IsArr bool
 	Fresh bool // allocated during this function (not visible to caller before)
+	MayAlias *Obj // result of append on a caller-visible array: may share it (growth in place)
 	Sym   bool // identity unknown: placeholder created by a havoc (contract result, modifies, loop target)
 }
 
@@ -157,6 +158,8 @@ type State struct {
 	taintKey map[*Obj]map[string]bool
 	// strings known not to occur in a slice of strings (assumed nolit(...) facts)
 	sliceExcl map[*Obj]map[string]bool
+	// labels of symbolic interface values, by reference term (they survive boxing into arrays)
+	taintRef map[string]uint8
 }
 
 func (s *State) clone() *State {
@@ -174,6 +177,12 @@ func (s *State) clone() *State {
 	}
 	for k, v := range s.taintKey {
 		n.taintKey[k] = v
+	}
+	if len(s.taintRef) > 0 {
+		n.taintRef = make(map[string]uint8, len(s.taintRef))
+		for k, b := range s.taintRef {
+			n.taintRef[k] = b
+		}
 	}
 	if len(s.sliceExcl) > 0 {
 		n.sliceExcl = make(map[*Obj]map[string]bool, len(s.sliceExcl))
